@@ -858,6 +858,22 @@ pub fn grid_v5(reduced: bool) -> Vec<c5::Packet> {
             g.push(c5::Packet::Publish(p));
         }
     }
+    // topic length x property-section length on both sides of the 127/128 width boundary
+    for topic in strs() {
+        for q in [0u8, 1] {
+            for plen in [0usize, 1, 120, 124, 125, 126, 127, 128, 200, 16_380] {
+                for extra in [0u16, 1 + 2, 1 + 64] {
+                    let mut props = pub_props(extra).unwrap_or_default();
+                    props.content_type = Some("c".repeat(plen));
+                    for payload in [0usize, 20] {
+                        let mut p = c5::Publish::new(topic.clone(), q5(q), vec![9u8; payload], Some(props.clone()));
+                        p.pkid = if q == 0 { 0 } else { 7 };
+                        g.push(c5::Packet::Publish(p));
+                    }
+                }
+            }
+        }
+    }
     for topic in strs() {
         for q in 0..3u8 {
             let overhead = 2 + topic.len() + if q > 0 { 2 } else { 0 } + 1;
@@ -937,6 +953,36 @@ pub fn grid_v5(reduced: bool) -> Vec<c5::Packet> {
             u.pkid = id;
             g.push(c5::Packet::Unsubscribe(u));
         }
+    }
+    // property sections around the one-byte / two-byte length boundary for every packet type
+    for n in [120usize, 124, 125, 126, 127, 128, 129, 200, 16_383] {
+        let rs = Some("r".repeat(n));
+        g.push(c5::Packet::PubAck(c5::PubAck { pkid: 1, reason: c5::PubAckReason::Success, properties: Some(c5::PubAckProperties { reason_string: rs.clone(), user_properties: vec![] }) }));
+        g.push(c5::Packet::PubRec(c5::PubRec { pkid: 1, reason: c5::PubRecReason::Success, properties: Some(c5::PubRecProperties { reason_string: rs.clone(), user_properties: vec![] }) }));
+        g.push(c5::Packet::PubRel(c5::PubRel { pkid: 1, reason: c5::PubRelReason::Success, properties: Some(c5::PubRelProperties { reason_string: rs.clone(), user_properties: vec![] }) }));
+        g.push(c5::Packet::PubComp(c5::PubComp { pkid: 1, reason: c5::PubCompReason::Success, properties: Some(c5::PubCompProperties { reason_string: rs.clone(), user_properties: vec![] }) }));
+        g.push(c5::Packet::SubAck(c5::SubAck { pkid: 1, return_codes: vec![c5::SubscribeReasonCode::Success(c5b::QoS::AtLeastOnce)], properties: Some(c5::SubAckProperties { reason_string: rs.clone(), user_properties: vec![] }) }));
+        g.push(c5::Packet::UnsubAck(c5::UnsubAck { pkid: 1, reasons: vec![c5::UnsubAckReason::Success], properties: Some(c5::UnsubAckProperties { reason_string: rs.clone(), user_properties: vec![] }) }));
+        g.push(c5::Packet::Disconnect(c5::Disconnect {
+            reason_code: c5::DisconnectReasonCode::ServerBusy,
+            properties: Some(c5::DisconnectProperties { session_expiry_interval: None, reason_string: rs.clone(), user_properties: vec![], server_reference: None }),
+        }));
+        let mut cp = connack_props(&[7]).unwrap();
+        cp.reason_string = rs.clone();
+        g.push(c5::Packet::ConnAck(c5::ConnAck { session_present: false, code: c5::ConnectReturnCode::Success, properties: Some(cp) }));
+        let mut cn = conn_props(129).unwrap();
+        cn.authentication_method = Some("m".repeat(n));
+        g.push(c5::Packet::Connect(c5::Connect { keep_alive: 5, client_id: "a".into(), clean_start: true, properties: Some(cn) }, None, None));
+        let mut s = c5::Subscribe::new(c5::Filter::new("a", c5b::QoS::AtMostOnce), Some(c5::SubscribeProperties { id: Some(3), user_properties: vec![("k".into(), "v".repeat(n))] }));
+        s.pkid = 1;
+        g.push(c5::Packet::Subscribe(s));
+        let mut u = c5::Unsubscribe::new("a", Some(c5::UnsubscribeProperties { user_properties: vec![("k".into(), "v".repeat(n))] }));
+        u.pkid = 1;
+        g.push(c5::Packet::Unsubscribe(u));
+        let mut wp = will_props(9).unwrap();
+        wp.content_type = Some("t".repeat(n));
+        let w = c5::LastWill { topic: Bytes::from_static(b"w"), message: Bytes::from_static(b"m"), qos: c5b::QoS::AtLeastOnce, retain: false, properties: Some(wp) };
+        g.push(c5::Packet::Connect(c5::Connect { keep_alive: 5, client_id: "a".into(), clean_start: true, properties: None }, Some(w), None));
     }
     // DISCONNECT: every reason code x property subsets
     use c5::DisconnectReasonCode as R;
